@@ -9,6 +9,6 @@ git apply "$P"
 for id in "$@"; do
   out=$(cd /verif && ./check "$id" --tier quick 2>&1); rc=$?
   echo "== $id exit=$rc"
-  echo "$out" | grep -E "^(VIOLATION|KNOWN-FINDING|bv:)|^--- violation" | head -12
+  echo "$out" | grep -E "^(VIOLATION|KNOWN-FINDING|bv: property)|^--- violation" | head -14
 done
 git -C /repo checkout -- .
